@@ -1040,6 +1040,9 @@ func runIn(sc *Scenario, res *core.Result, verbose bool) {
 	}
 	n.SrvNoDeadlines = sc.NoDeadlines && sc.Transport == "tcp"
 	n.SrvSockoptFail = sc.SockoptFail && sc.Transport == "tcp"
+	if sc.Transport == "tcp" && sc.RunSeed%9 == 0 {
+		n.CloseErr = "srv" // closing an accepted connection reports an error (it is closed all the same)
+	}
 	if sc.CloseStallMs > 0 && n.CloseYields && sc.Transport != "udp" {
 		n.SrvCloseStall = time.Duration(sc.CloseStallMs) * time.Millisecond
 	}
